@@ -36,6 +36,15 @@ fn ctx_variants(ctx: &mut Ctx, c: &[u8]) -> Vec<(&'static str, Vec<u8>)> {
     x.push(b'\n');
     v.push(("context-extended", x));
     v.push(("context-is-digest-of-context", sha3_256(c).to_vec()));
+    // the concatenated digests of the context's chunks (a two-level hash of a long context must not equal the
+    // one-level hash of that short string)
+    for chunk in [136usize, 4096, 8192, 65536, 1 << 20] {
+        if c.len() > chunk {
+            let mut x = vec![];
+            for part in c.chunks(chunk) { x.extend(sha3_256(part)); }
+            v.push(("context-is-digests-of-chunks", x));
+        }
+    }
     if c.len() != 0 { v.push(("context-empty", vec![])); }
     v
 }
